@@ -140,9 +140,13 @@ func c06Run(r *Run, hp, kind string) {
 			r.Violate("C06 emitted message is not a well-formed CCTP message", a.Desc, rp("", fmt.Sprintf("%x", sent[0])))
 			return o, p, false
 		}
-		if !refMsgEqual(dm, p.Sent) {
-			fp := "C06 emitted message differs from the request: " + c06FirstDiff(dm, p.Sent)
-			r.Violate(fp, fmt.Sprintf("%s:\n emitted  %s\n expected %s", a.Desc, refMsgStr(dm), refMsgStr(p.Sent)), rp(refMsgStr(p.Sent), refMsgStr(dm)))
+		// the nonce is judged against the response below (the counter itself is C07's subject,
+		// the nonce of a replacement C09's)
+		exp := *p.Sent
+		exp.Nonce = dm.Nonce
+		if !refMsgEqual(dm, &exp) {
+			fp := "C06 emitted message differs from the request: " + c06FirstDiff(dm, &exp)
+			r.Violate(fp, fmt.Sprintf("%s:\n emitted  %s\n expected %s", a.Desc, refMsgStr(dm), refMsgStr(&exp)), rp(refMsgStr(&exp), refMsgStr(dm)))
 			return o, p, false
 		}
 		if p.Nonce != nil {
@@ -189,9 +193,9 @@ func c06Run(r *Run, hp, kind string) {
 			return nil
 		}
 		callerOK := bytes.Equal(ev.DestinationCaller, caller) || (len(ev.DestinationCaller) == 0 && bytes.Equal(caller, Zero32)) || (len(caller) == 0 && bytes.Equal(ev.DestinationCaller, Zero32))
-		if ev.Nonce != p.Sent.Nonce || ev.Amount.IsNil() || ev.Amount.BigInt().Cmp(amt) != 0 || ev.Depositor != depositor || !bytes.Equal(ev.MintRecipient, mintRecipient) ||
+		if ev.Nonce != sentNonce(o) || ev.Amount.IsNil() || ev.Amount.BigInt().Cmp(amt) != 0 || ev.Depositor != depositor || !bytes.Equal(ev.MintRecipient, mintRecipient) ||
 			ev.DestinationDomain != dst || !bytes.Equal(ev.DestinationTokenMessenger, p.Sent.Recipient) || !callerOK {
-			want := fmt.Sprintf("nonce=%d amount=%s depositor=%s mintRecipient=%x dst=%d messenger=%x caller=%x", p.Sent.Nonce, amt, depositor, mintRecipient, dst, p.Sent.Recipient, caller)
+			want := fmt.Sprintf("nonce=%d amount=%s depositor=%s mintRecipient=%x dst=%d messenger=%x caller=%x", sentNonce(o), amt, depositor, mintRecipient, dst, p.Sent.Recipient, caller)
 			r.Violate("C06 DepositForBurn event differs from the request / emitted message", fmt.Sprintf("%s:\n event    %v\n expected %s", a.Desc, ev, want), rp(want, ev.String()))
 			return nil
 		}
@@ -340,4 +344,15 @@ func c06FirstDiff(a, b *refcodec.Message) string {
 		return "body"
 	}
 	return "?"
+}
+
+
+// sentNonce: the nonce carried by the (single) MessageSent of an outcome.
+func sentNonce(o Outcome) uint64 {
+	if ms := MessageSentOf(o.Events); len(ms) == 1 {
+		if dm, err := refcodec.DecodeMessage(ms[0]); err == nil {
+			return dm.Nonce
+		}
+	}
+	return 0
 }
